@@ -97,6 +97,10 @@ impl<CS: CLCiphersuite> Signature<CL03<CS>> {
     pub fn verify(&self, pk: &CL03PublicKey, a_bases: &Bases, message: &CL03Message) -> bool {
         let sign = self.cl03Signature();
 
+        if message.value < 0 || message.value >= Integer::from(2).pow(CS::lm) {
+            return false;
+        }
+
         let lhs = Integer::from(sign.v.pow_mod_ref(&sign.e, &pk.N).unwrap());
 
         let rhs = (Integer::from(a_bases.0[0].pow_mod_ref(&message.value, &pk.N).unwrap())
@@ -126,6 +130,13 @@ impl<CS: CLCiphersuite> Signature<CL03<CS>> {
         }
 
         let sign = self.cl03Signature();
+
+        if messages
+            .iter()
+            .any(|m| m.value < 0 || m.value >= Integer::from(2).pow(CS::lm))
+        {
+            return false;
+        }
 
         let lhs = Integer::from(sign.v.pow_mod_ref(&sign.e, &pk.N).unwrap());
 
